@@ -6,6 +6,7 @@ import ast
 import itertools
 
 import alg
+import lin
 from alg import Expr, ZERO, ONE, as_expr
 from front import AnalysisError, dotted_name
 from interp import Interp, Opaque, Tup, PyList, Unknown, Arr, SymArr, explore, FuncRef, RangeV
@@ -619,6 +620,8 @@ def validate_obligations(P):
                     for a in range(len(items)):
                         for b in range(a + 1, len(items)):
                             p = r.facts.possible((items[a] - items[b]).expand())
+                            if len(p) > 1:
+                                p = p & lin.implied_signs(r.facts, (items[a] - items[b]).expand())  # e.g. min == max settles every pair
                             if p <= {"0"}:
                                 parent[find(a)] = find(b)
                             elif not (p & {"0"}):
@@ -636,7 +639,9 @@ def validate_obligations(P):
                     pairs = [rel(lens[a], lens[b]) for a, b in itertools.combinations(fl, 2)]
                     n = lens[fl[0]] if fl else ONE
                     tsrel = rel(lens["timestamps"], n) if ts == "list" else "eq"
-                    if r.kind == "return":
+                    if any(d.startswith("unknown test") for d, _ in r.path):
+                        obs.append(req_ob("R-TS-VALIDATE", site, "validate path interpretable (%s)" % tag, None, detail="the path rests on a test that is not modelled: %s" % next(d for d, _ in r.path if d.startswith("unknown test"))[:160]))
+                    elif r.kind == "return":
                         ok = all(x == "eq" for x in pairs) and tsrel == "eq"
                         why = None if ok else "returns although %s" % ("the timestamps length was never compared with the step count" if tsrel != "eq" and all(x == "eq" for x in pairs) else "list lengths were not all compared: %s" % pairs)
                         obs.append(req_ob("R-TS-VALIDATE", site, "an accepted forcing has equal list lengths and matching timestamps (%s)" % tag, ok, detail=why, key={"lists": sorted(pat), "timestamps": ts}))
